@@ -28,3 +28,65 @@ func CloseOnExec(fd int) {
 	}
 	rsyscall.CloseOnExec(fd)
 }
+
+type Errno = rsyscall.Errno
+
+const (
+	SIGHUP  = rsyscall.SIGHUP
+	SIGQUIT = rsyscall.SIGQUIT
+	SIGUSR1 = rsyscall.SIGUSR1
+	SIGUSR2 = rsyscall.SIGUSR2
+	SIGCHLD = rsyscall.SIGCHLD
+	SIGPIPE = rsyscall.SIGPIPE
+
+	EPIPE  = rsyscall.EPIPE
+	EAGAIN = rsyscall.EAGAIN
+	EINTR  = rsyscall.EINTR
+	ENOENT = rsyscall.ENOENT
+	EEXIST = rsyscall.EEXIST
+	ESRCH  = rsyscall.ESRCH
+	ECHILD = rsyscall.ECHILD
+	EACCES = rsyscall.EACCES
+	EINVAL = rsyscall.EINVAL
+)
+
+func Getpid() int {
+	if w := zsim.W; w != nil && w.K != nil {
+		return w.K.Getpid()
+	}
+	return rsyscall.Getpid()
+}
+
+func Getppid() int {
+	if w := zsim.W; w != nil && w.K != nil {
+		return w.K.Getppid()
+	}
+	return rsyscall.Getppid()
+}
+
+func Kill(pid int, sig Signal) error {
+	if w := zsim.W; w != nil && w.K != nil {
+		if zsim.Dying() {
+			return nil
+		}
+		if sig == SIGKILL {
+			return w.K.Kill(pid)
+		}
+		if sig == 0 {
+			if p := w.K.Proc(pid); p == nil || p.Exited {
+				return rsyscall.ESRCH
+			}
+			return nil
+		}
+		w.K.Signal(pid, sig.String())
+		return nil
+	}
+	return rsyscall.Kill(pid, sig)
+}
+
+func Unlink(path string) error {
+	if w := zsim.W; w != nil && w.K != nil {
+		return nil
+	}
+	return rsyscall.Unlink(path)
+}
